@@ -1,7 +1,1019 @@
-//! obs — coverage-gap closing harness (see the worker task); implementation side.
+//! obs — observation APIs of the checker (coverage-gap closing, worker W-G1); implementation side.
+//!
+//!  1. `Checker::report` / `Checker::join_and_report` with `WriteReporter` (src/checker.rs, src/report.rs) after
+//!     single-threaded bfs / dfs / on-demand / simulation runs on generated graphs whose property NAMES are drawn from a
+//!     pool in which name order differs from index order:
+//!       M  report <strat> ..        exact text against the Lean model `reportLines` run on the machine's final state
+//!       M  report-text ..           simulation: the text as a function of the checker's own counts / discoveries
+//!       O  o-report ..              the laws of SR/Props/Report.lean evaluated on the parsed text
+//!       V                           join_and_report != join + report, report not idempotent, malformed `Checking.` line
+//!  2. `PathRecorder` / `StateRecorder` (src/checker/visitor.rs) against a closure visitor (V lines).
+//!  3. `Model` trait defaults (src/lib.rs) on a model that overrides nothing, `Checker` defaults (V lines).
+//!  4. `Path::from_fingerprints` failure branches through `discoveries()` / `discovery()` on a model that stops being a
+//!     function of its state after the check (V lines).
+//!  5. simulation whose chosen initial state is outside the boundary:  M  sim ..  (command of Drv/Chk.lean).
+use srh::gm::*;
 use srh::out::*;
+use srh::rng::Rng;
+use stateright::report::{ReportData, ReportDiscovery, Reporter, WriteReporter};
+use stateright::{Checker, Expectation, HasDiscoveries, Model, Path, PathRecorder, Property, StateRecorder};
+use std::collections::{BTreeMap, BTreeSet, HashSet};
+use std::fmt::Debug;
+use std::hash::Hash;
+use std::num::NonZeroU64;
+use std::panic::{catch_unwind, AssertUnwindSafe};
+use std::sync::atomic::{AtomicU32, AtomicUsize, Ordering};
+use std::sync::{mpsc, Arc, Mutex};
+use std::time::Duration;
+
+// ------------------------------------------------------------------------------------------------------------
+// the model: a `GraphModel` with free property names and a switch that makes it stop being a function of its state
+// ------------------------------------------------------------------------------------------------------------
+
+/// names: lexicographic (byte) order differs from any index order; prefixes, upper/lower case, digits, punctuation
+const POOL: [&str; 14] = ["p0", "p10", "p2", "P1", "a", "ab", "b", "_z", "Zed", "p1", "q9", "aa", "p", "a-b"];
+
+const SHIFT: u16 = 1000;
+
+#[derive(Clone, Debug)]
+struct NG {
+    g: GraphModel,
+    names: Vec<&'static str>,
+    /// 0 honest; 1 `init_states` shifted; 2 `next_state` of state `broken` shifted; 3 `actions` of state `broken` empty
+    mode: Arc<AtomicU32>,
+    broken: Arc<AtomicU32>,
+}
+
+fn ncond<const K: usize>(m: &NG, s: &u16) -> bool {
+    m.g.props[K].tbl.get(*s as usize).copied().unwrap_or(false)
+}
+const NCONDS: [fn(&NG, &u16) -> bool; 6] = [ncond::<0>, ncond::<1>, ncond::<2>, ncond::<3>, ncond::<4>, ncond::<5>];
+
+impl NG {
+    fn new(g: GraphModel, names: Vec<&'static str>) -> Self {
+        NG { g, names, mode: Arc::new(AtomicU32::new(0)), broken: Arc::new(AtomicU32::new(0)) }
+    }
+    /// same graph and names, own switches
+    fn fresh(&self) -> Self {
+        NG::new(self.g.clone(), self.names.clone())
+    }
+    fn names_sx(&self) -> String {
+        format!("({})", self.names.join(" "))
+    }
+    fn idx(&self, name: &str) -> usize {
+        self.names.iter().position(|n| *n == name).unwrap_or(99)
+    }
+    fn is_broken(&self, s: u16) -> bool {
+        self.broken.load(Ordering::SeqCst) == s as u32
+    }
+}
+
+impl Model for NG {
+    type State = u16;
+    type Action = u16;
+    fn init_states(&self) -> Vec<u16> {
+        if self.mode.load(Ordering::SeqCst) == 1 {
+            self.g.init.iter().map(|s| s + SHIFT).collect()
+        } else {
+            self.g.init.clone()
+        }
+    }
+    fn actions(&self, s: &u16, actions: &mut Vec<u16>) {
+        if self.mode.load(Ordering::SeqCst) == 3 && self.is_broken(*s) {
+            return;
+        }
+        if let Some(row) = self.g.adj.get(*s as usize) {
+            for a in 0..row.len() {
+                actions.push(a as u16);
+            }
+        }
+    }
+    fn next_state(&self, s: &u16, a: u16) -> Option<u16> {
+        let t = self.g.adj.get(*s as usize)?.get(a as usize).copied().flatten()?;
+        if self.mode.load(Ordering::SeqCst) == 2 && self.is_broken(*s) {
+            Some(t + SHIFT)
+        } else {
+            Some(t)
+        }
+    }
+    fn within_boundary(&self, s: &u16) -> bool {
+        self.g.bnd.get(*s as usize).copied().unwrap_or(false)
+    }
+    fn properties(&self) -> Vec<Property<Self>> {
+        self.g
+            .props
+            .iter()
+            .enumerate()
+            .map(|(k, p)| {
+                let e = match p.exp {
+                    'a' => Expectation::Always,
+                    's' => Expectation::Sometimes,
+                    _ => Expectation::Eventually,
+                };
+                Property { expectation: e, name: self.names[k], condition: NCONDS[k] }
+            })
+            .collect()
+    }
+}
+
+#[derive(Clone, Debug)]
+struct Cfg {
+    max_depth: Option<usize>,
+    target: Option<usize>,
+    finish: String,
+}
+impl Cfg {
+    fn plain() -> Self {
+        Cfg { max_depth: None, target: None, finish: "all".into() }
+    }
+    fn sx(&self) -> String {
+        format!(
+            "(cfg {} {} {})",
+            self.max_depth.map(|d| d.to_string()).unwrap_or("none".into()),
+            self.target.map(|d| d.to_string()).unwrap_or("none".into()),
+            self.finish
+        )
+    }
+    fn has_disc(&self, m: &NG) -> HasDiscoveries {
+        let names = |s: &str| -> BTreeSet<&'static str> {
+            s.trim_matches(|c| c == '(' || c == ')')
+                .split(' ')
+                .skip(1)
+                .filter_map(|x| x.parse::<usize>().ok())
+                .map(|i| if i < m.names.len() { m.names[i] } else { "foreign" })
+                .collect()
+        };
+        match self.finish.as_str() {
+            "all" => HasDiscoveries::All,
+            "any" => HasDiscoveries::Any,
+            "anyf" => HasDiscoveries::AnyFailures,
+            "allf" => HasDiscoveries::AllFailures,
+            s if s.starts_with("(allof") => HasDiscoveries::AllOf(names(s)),
+            s => HasDiscoveries::AnyOf(names(s)),
+        }
+    }
+}
+
+/// the k-th question of the run is answered with `script[k] % options` (0 once the script is exhausted)
+#[derive(Clone)]
+struct ScriptChooser {
+    script: Arc<Vec<usize>>,
+    pos: Arc<AtomicUsize>,
+}
+impl ScriptChooser {
+    fn new(script: &[usize]) -> Self {
+        ScriptChooser { script: Arc::new(script.to_vec()), pos: Arc::new(AtomicUsize::new(0)) }
+    }
+    fn answer(&self, n: usize) -> usize {
+        let k = self.pos.fetch_add(1, Ordering::SeqCst);
+        if k < self.script.len() { self.script[k] % n } else { 0 }
+    }
+}
+impl stateright::Chooser<NG> for ScriptChooser {
+    type State = ();
+    fn new_state(&self, _seed: u64) {}
+    fn choose_initial_state(&self, _: &mut (), initial_states: &[u16]) -> usize {
+        self.answer(initial_states.len())
+    }
+    fn choose_action(&self, _: &mut (), _cur: &u16, actions: &[u16]) -> usize {
+        self.answer(actions.len())
+    }
+}
+
+/// builder with the run controls of `cfg`, one thread
+fn builder(m: &NG, cfg: &Cfg) -> stateright::CheckerBuilder<NG> {
+    let mut b = m.clone().checker().threads(1).finish_when(cfg.has_disc(m));
+    if let Some(d) = cfg.max_depth {
+        b = b.target_max_depth(d);
+    }
+    if let Some(t) = cfg.target {
+        b = b.target_state_count(t);
+    }
+    b
+}
+
+/// spawn the checker of the strategy (on-demand: told to run to completion) and evaluate `$body` with it bound to `$c`
+macro_rules! with_checker {
+    ($b:expr, $strat:expr, $script:expr, $c:ident => $body:expr) => {
+        match $strat {
+            "bfs" => {
+                let $c = $b.spawn_bfs();
+                $body
+            }
+            "dfs" => {
+                let $c = $b.spawn_dfs();
+                $body
+            }
+            "sim" => {
+                let $c = $b.spawn_simulation(0, ScriptChooser::new($script));
+                $body
+            }
+            _ => {
+                let $c = $b.spawn_on_demand();
+                $c.run_to_completion();
+                $body
+            }
+        }
+    };
+}
+
+/// run `f` on its own thread; `Err("panic" | "hang")`
+fn guarded<T: Send + 'static>(secs: u64, f: impl FnOnce() -> T + Send + 'static) -> Result<T, String> {
+    let (tx, rx) = mpsc::channel();
+    std::thread::spawn(move || {
+        let r = catch_unwind(AssertUnwindSafe(f));
+        let _ = tx.send(r);
+    });
+    match rx.recv_timeout(Duration::from_secs(secs)) {
+        Ok(Ok(v)) => Ok(v),
+        Ok(Err(e)) => Err(format!("panic: {}", panic_text(&e))),
+        Err(_) => Err("hang".into()),
+    }
+}
+
+fn panic_text(e: &Box<dyn std::any::Any + Send>) -> String {
+    if let Some(s) = e.downcast_ref::<String>() {
+        s.clone()
+    } else if let Some(s) = e.downcast_ref::<&str>() {
+        s.to_string()
+    } else {
+        "?".into()
+    }
+}
+
+fn nums<T: ToString>(xs: &[T]) -> String {
+    format!("({})", xs.iter().map(|x| x.to_string()).collect::<Vec<_>>().join(" "))
+}
+
+// ------------------------------------------------------------------------------------------------------------
+// 1. report / join_and_report
+// ------------------------------------------------------------------------------------------------------------
+
+/// a `WriteReporter` whose `delay()` is 1 ms (so that the polling thread of `join_and_report` / the loop of `report`
+/// runs many times within a test)
+struct Fast<'a, W>(WriteReporter<'a, W>);
+impl<'a, M: Model, W: std::io::Write> Reporter<M> for Fast<'a, W> {
+    fn report_checking(&mut self, data: ReportData) {
+        Reporter::<M>::report_checking(&mut self.0, data)
+    }
+    fn report_discoveries(&mut self, discoveries: BTreeMap<&'static str, ReportDiscovery<M>>)
+    where
+        M::Action: Debug,
+        M::State: Debug + Hash,
+    {
+        self.0.report_discoveries(discoveries)
+    }
+    fn delay(&self) -> Duration {
+        Duration::from_millis(1)
+    }
+}
+
+/// fingerprint -> state number
+fn fp_table(n: usize) -> BTreeMap<u64, u16> {
+    (0..n as u16).map(|s| (stateright::verif::fingerprint(&s), s)).collect()
+}
+
+/// canonical one-line form of a report text: lines joined by `|`, `sec=<digits>` -> `sec=_`, fingerprints -> state numbers
+fn canon(text: &str, fps: &BTreeMap<u64, u16>) -> Result<Vec<String>, String> {
+    if text.is_empty() {
+        return Ok(vec![]);
+    }
+    if !text.ends_with('\n') {
+        return Err("text-does-not-end-with-newline".into());
+    }
+    let mut out = vec![];
+    for line in text[..text.len() - 1].split('\n') {
+        if line.starts_with("Done. ") {
+            match line.rfind(", sec=") {
+                Some(k) if line[k + 6..].chars().all(|c| c.is_ascii_digit()) && line.len() > k + 6 => {
+                    out.push(format!("{}, sec=_", &line[..k]))
+                }
+                _ => return Err(format!("done-line-without-seconds: {}", line)),
+            }
+        } else if let Some(rest) = line.strip_prefix("Fingerprint path: ") {
+            let parts: Vec<String> = rest
+                .split('/')
+                .map(|p| match p.parse::<u64>().ok().and_then(|fp| fps.get(&fp)) {
+                    Some(s) => s.to_string(),
+                    None => format!("?{}", p),
+                })
+                .collect();
+            out.push(format!("Fingerprint path: {}", parts.join("/")));
+        } else {
+            out.push(line.to_string());
+        }
+    }
+    Ok(out)
+}
+
+fn parse_counts(line: &str, prefix: &str) -> Option<(u64, u64, u64)> {
+    let rest = line.strip_prefix(prefix)?;
+    let rest = rest.strip_prefix("states=")?;
+    let (a, rest) = rest.split_once(", unique=")?;
+    let (b, rest) = rest.split_once(", depth=")?;
+    let c = rest.strip_suffix(", sec=_").unwrap_or(rest);
+    Some((a.parse().ok()?, b.parse().ok()?, c.parse().ok()?))
+}
+
+/// the canonical lines after the `Checking.` lines, parsed: `(done S U D)` and `((name cls k (acts) (states)) ..)`
+fn parse_report(lines: &[String]) -> Result<((u64, u64, u64), Vec<String>), String> {
+    if lines.is_empty() {
+        return Err("empty".into());
+    }
+    let done = parse_counts(&lines[0], "Done. ").ok_or_else(|| format!("first line is not a Done line: {}", lines[0]))?;
+    if !lines[0].ends_with(", sec=_") {
+        return Err("done-line-without-seconds".into());
+    }
+    let mut entries = vec![];
+    let mut i = 1;
+    while i < lines.len() {
+        let l = &lines[i];
+        let rest = l.strip_prefix("Discovered \"").ok_or_else(|| format!("expected a Discovered line: {}", l))?;
+        let (name, rest) = rest.split_once("\" ").ok_or("no closing quote")?;
+        let (cls, rest) = rest.split_once(' ').ok_or("no classification")?;
+        let k = rest.strip_prefix("Path[").and_then(|r| r.strip_suffix("]:")).ok_or("no path header")?;
+        if name.is_empty() || name.contains(|c: char| c == ' ' || c == '(' || c == ')') || cls.contains(|c: char| c == '(' || c == ')') {
+            return Err("bad name".into());
+        }
+        k.parse::<u64>().map_err(|_| "bad path length")?;
+        i += 1;
+        let mut acts = vec![];
+        while i < lines.len() && lines[i].starts_with("- ") {
+            acts.push(lines[i][2..].parse::<u64>().map_err(|_| format!("bad action line: {}", lines[i]))?);
+            i += 1;
+        }
+        let fpl = lines.get(i).and_then(|l| l.strip_prefix("Fingerprint path: ")).ok_or("missing Fingerprint path line")?;
+        let mut states = vec![];
+        for p in fpl.split('/') {
+            states.push(p.parse::<u64>().map_err(|_| format!("fingerprint of no state: {}", p))?);
+        }
+        i += 1;
+        entries.push(format!("({} {} {} {} {})", name, cls, k, nums(&acts), nums(&states)));
+    }
+    Ok((done, entries))
+}
+
+struct Reported {
+    counts: (usize, usize, usize),
+    /// `discoveries()`: name -> (state, action) list
+    disc: BTreeMap<&'static str, Vec<(u16, Option<u16>)>>,
+    /// text of `join()` then `report(WriteReporter)`
+    after_join: String,
+    /// the same call once more on the checker `report` returned
+    again: String,
+    /// text of `join_and_report(Fast)`
+    joined: String,
+    done_after_join: bool,
+}
+
+fn run_reports(m: &NG, strat: &'static str, cfg: &Cfg, script: &[usize]) -> Result<Reported, String> {
+    let (m, cfg, script) = (m.fresh(), cfg.clone(), script.to_vec());
+    guarded(20, move || {
+        let b = builder(&m, &cfg);
+        let (counts, disc, after_join, again, done_after_join) = with_checker!(b, strat, &script, c => {
+            let c = c.join();
+            let counts = (c.state_count(), c.unique_state_count(), c.max_depth());
+            let disc: BTreeMap<&'static str, Vec<(u16, Option<u16>)>> = c.discoveries().into_iter().map(|(k, p)| (k, p.into_vec())).collect();
+            let done = c.is_done();
+            let mut buf: Vec<u8> = vec![];
+            let c = c.report(&mut WriteReporter::new(&mut buf));
+            let mut buf2: Vec<u8> = vec![];
+            let _c = c.report(&mut WriteReporter::new(&mut buf2));
+            (counts, disc, String::from_utf8_lossy(&buf).to_string(), String::from_utf8_lossy(&buf2).to_string(), done)
+        });
+        let b = builder(&m.fresh(), &cfg);
+        let joined = with_checker!(b, strat, &script, c => {
+            let mut buf: Vec<u8> = vec![];
+            let mut r = Fast(WriteReporter::new(&mut buf));
+            let _c = c.join_and_report(&mut r);
+            String::from_utf8_lossy(&buf).to_string()
+        });
+        Reported { counts, disc, after_join, again, joined, done_after_join }
+    })
+}
+
+/// `Checking.` lines: exact shape, counts never decrease
+fn checking_lines_ok(lines: &[String]) -> Result<usize, String> {
+    let mut last = (0u64, 0u64, 0u64);
+    for l in lines {
+        let c = parse_counts(l, "Checking. ").ok_or_else(|| format!("malformed Checking line: {}", l))?;
+        if format!("Checking. states={}, unique={}, depth={}", c.0, c.1, c.2) != *l {
+            return Err(format!("malformed Checking line: {}", l));
+        }
+        if c.0 < last.0 || c.1 < last.1 || c.2 < last.2 {
+            return Err(format!("counts decrease between Checking lines: {:?} then {:?}", last, c));
+        }
+        last = c;
+    }
+    Ok(lines.len())
+}
+
+fn report_case(out: &mut Out, m: &NG, strat: &'static str, cfg: &Cfg, script: &[usize]) {
+    let desc = format!("strat={} graph={} props={} names={} cfg={} script={}", strat, m.g.graph_sx(), m.g.props_sx(), m.names_sx(), cfg.sx(), nums(script));
+    let r = match run_reports(m, strat, cfg, script) {
+        Ok(r) => r,
+        Err(e) => {
+            out.v(if e == "hang" { "report-hang" } else { "report-panic" }, &format!("{} {}", e, desc));
+            return;
+        }
+    };
+    out.stat(&format!("report-{}", strat));
+    let fps = fp_table(m.g.n);
+    let a = match canon(&r.after_join, &fps) {
+        Ok(a) => a,
+        Err(e) => { out.v("report-text-malformed", &format!("{} {}", e, desc)); return; }
+    };
+    // `report` on a finished checker prints no `Checking.` line
+    if !r.done_after_join { out.stat("report-checker-not-done-after-join"); }
+    if a.iter().any(|l| l.starts_with("Checking.")) && r.done_after_join {
+        out.v("report-checking-line-on-a-finished-checker", &desc);
+    }
+    if canon(&r.again, &fps).ok().as_ref() != Some(&a) {
+        out.v("report-twice-differs", &format!("{} first={:?} second={:?}", desc, r.after_join, r.again));
+    }
+    // join_and_report = optional Checking lines, then exactly the text of join + report
+    match canon(&r.joined, &fps) {
+        Err(e) => out.v("join_and_report-text-malformed", &format!("{} {}", e, desc)),
+        Ok(j) => {
+            let k = j.iter().take_while(|l| l.starts_with("Checking.")).count();
+            match checking_lines_ok(&j[..k]) {
+                Ok(n) => { if n > 0 { out.stat("join_and_report-with-checking-lines"); out.stat_n("checking-lines", n as u64); } }
+                Err(e) => out.v("checking-line", &format!("{} {}", e, desc)),
+            }
+            if j[k..] != a[..] {
+                out.v("join_and_report-differs-from-join-then-report", &format!("{} join_and_report={:?} join+report={:?}", desc, j, a));
+            }
+        }
+    }
+    let text = a.join("|");
+    let (gs, ps, ns, cs) = (m.g.graph_sx(), m.g.props_sx(), m.names_sx(), cfg.sx());
+    let disc_sx = format!(
+        "({})",
+        r.disc.iter().map(|(name, p)| format!("({} {})", m.idx(name), nums(&p.iter().map(|x| x.0).collect::<Vec<_>>()))).collect::<Vec<_>>().join(" ")
+    );
+    if strat == "sim" {
+        out.m(&format!("report-text {} {} {} ({} {} {}) {}", gs, ps, ns, r.counts.0, r.counts.1, r.counts.2, disc_sx), &text);
+    } else {
+        out.m(&format!("report {} {} {} {} {}", strat, gs, ps, ns, cs), &text);
+        // the text is also a function of what the checker itself exposes
+        if out.cases % 4 == 0 {
+            out.m(&format!("report-text {} {} {} ({} {} {}) {}", gs, ps, ns, r.counts.0, r.counts.1, r.counts.2, disc_sx), &text);
+        }
+    }
+    match parse_report(&a) {
+        Err(e) => out.v("report-unparsable", &format!("{} {} text={:?}", e, desc, text)),
+        Ok((done, entries)) => {
+            let dn: Vec<&str> = r.disc.keys().copied().collect();
+            out.o(&format!(
+                "o-report {} {} {} (counts {} {} {}) (done {} {} {}) ({}) ({})",
+                gs, ps, ns, r.counts.0, r.counts.1, r.counts.2, done.0, done.1, done.2, dn.join(" "), entries.join(" ")
+            ));
+            out.stat(&format!("report-discoveries-{}", entries.len()));
+            let idx: Vec<usize> = dn.iter().map(|n| m.idx(n)).collect();
+            if idx.windows(2).any(|w| w[0] > w[1]) { out.stat("report-name-order-differs-from-index-order"); }
+            if entries.iter().any(|e| e.contains(" example ")) { out.stat("report-with-example"); }
+            if entries.iter().any(|e| e.contains(" counterexample ")) { out.stat("report-with-counterexample"); }
+        }
+    }
+    out.distinct(&(gs, ps, ns, cs, strat));
+}
+
+/// `report` / `join_and_report` on a checker that is still RUNNING (bigger graphs): every line has the documented shape:
+/// `Checking.` lines (counts never decrease), ONE `Done.` line, discoveries in strictly ascending name order
+fn live_reports(out: &mut Out, r: &mut Rng, th: bool) {
+    let reps = if th { 40 } else { 6 };
+    for rep in 0..reps {
+        let n = 6000 + r.below(20000);
+        let mut g = GraphModel::big(r, n);
+        let rare: Vec<bool> = (0..n).map(|_| r.chance(1, 3000)).collect();
+        g.props = vec![
+            GProp { exp: 'a', tbl: vec![true; n] },
+            GProp { exp: 's', tbl: rare.clone() },
+            GProp { exp: 'a', tbl: rare.iter().map(|b| !*b).collect() },
+        ];
+        let mut names: Vec<&'static str> = POOL.to_vec();
+        r.shuffle(&mut names);
+        names.truncate(3);
+        let m = NG::new(g, names);
+        let strat = ["bfs", "dfs", "ondemand"][rep % 3];
+        let joined = rep % 2 == 0;
+        let threads = 1 + r.below(3);
+        let m2 = m.fresh();
+        let res = guarded(60, move || {
+            let b = m2.clone().checker().threads(threads);
+            with_checker!(b, strat, &[], c => {
+                let mut buf: Vec<u8> = vec![];
+                let mut rp = Fast(WriteReporter::new(&mut buf));
+                let c = if joined { c.join_and_report(&mut rp) } else { c.report(&mut rp).join() };
+                let counts = (c.state_count() as u64, c.unique_state_count() as u64, c.max_depth() as u64);
+                let names: BTreeSet<&'static str> = c.discoveries().into_keys().collect();
+                (String::from_utf8_lossy(&buf).to_string(), counts, names)
+            })
+        });
+        let desc = format!("live report n={} strategy={} threads={} call={} seed={} rep={}", n, strat, threads, if joined { "join_and_report" } else { "report" }, seed(), rep);
+        match res {
+            Err(e) => out.v(if e == "hang" { "live-report-hang" } else { "live-report-panic" }, &format!("{} {}", e, desc)),
+            Ok((text, counts, names)) => {
+                // fingerprints stay as they are (`?fp`): only the shape is checked here
+                let lines = match canon(&text, &BTreeMap::new()) { Ok(l) => l, Err(e) => { out.v("live-report-malformed", &format!("{} {}", e, desc)); continue; } };
+                let k = lines.iter().take_while(|l| l.starts_with("Checking.")).count();
+                match checking_lines_ok(&lines[..k]) {
+                    Ok(nl) => { out.stat_n("live-checking-lines", nl as u64); if nl > 0 { out.stat("live-runs-with-checking-lines"); } }
+                    Err(e) => out.v("checking-line", &format!("{} {}", e, desc)),
+                }
+                let rest = &lines[k..];
+                let dones = rest.iter().filter(|l| l.starts_with("Done.")).count();
+                if dones != 1 || !rest.first().map(|l| l.starts_with("Done. ")).unwrap_or(false) {
+                    out.v("live-report-not-exactly-one-done-line-after-the-checking-lines", &desc);
+                    continue;
+                }
+                let done = parse_counts(&rest[0], "Done. ");
+                // join_and_report prints the Done line after all threads were joined: the counts are final
+                if joined && done != Some(counts) { out.v("live-join_and_report-done-counts-not-final", &format!("{} done={:?} final={:?}", desc, done, counts)); }
+                if let (Some(d), Some(last)) = (done, lines[..k].last().and_then(|l| parse_counts(l, "Checking. "))) {
+                    if d.0 < last.0 || d.1 < last.1 || d.2 < last.2 { out.v("live-done-counts-below-last-checking-line", &desc); }
+                }
+                let listed: Vec<&str> = rest.iter().filter_map(|l| l.strip_prefix("Discovered \"")).filter_map(|l| l.split_once('"').map(|x| x.0)).collect();
+                if listed.windows(2).any(|w| w[0] >= w[1]) { out.v("live-report-names-not-strictly-ascending", &format!("{} {:?}", desc, listed)); }
+                if listed.iter().any(|n| !m.names.contains(n)) { out.v("live-report-unknown-name", &format!("{} {:?}", desc, listed)); }
+                if joined && listed.iter().copied().collect::<BTreeSet<_>>() != names { out.v("live-join_and_report-names-differ-from-discoveries", &format!("{} listed={:?} discoveries={:?}", desc, listed, names)); }
+                for (i, l) in rest.iter().enumerate().skip(1) {
+                    let ok = l.starts_with("Discovered \"") && l.ends_with("]:") || l.starts_with("- ") && l[2..].parse::<u16>().is_ok() || l.starts_with("Fingerprint path: ?");
+                    if !ok { out.v("live-report-unexpected-line", &format!("{} line {}: {}", desc, i, l)); break; }
+                }
+                out.stat("live-report-runs");
+                out.stat(if joined { "live-join_and_report" } else { "live-report" });
+                out.distinct(&(n, strat, threads, joined, rep));
+                if rep == 0 { out.sample(&desc); }
+            }
+        }
+    }
+}
+
+// ------------------------------------------------------------------------------------------------------------
+// 2. PathRecorder / StateRecorder
+// ------------------------------------------------------------------------------------------------------------
+
+fn recorder_case(out: &mut Out, m: &NG, strat: &'static str, cfg: &Cfg, script: &[usize]) {
+    let desc = format!("strat={} graph={} props={} cfg={} script={}", strat, m.g.graph_sx(), m.g.props_sx(), cfg.sx(), nums(script));
+    let (m2, cfg2, script2) = (m.fresh(), cfg.clone(), script.to_vec());
+    let res = guarded(20, move || {
+        // the paths a closure visitor is shown, in order
+        let log: Arc<Mutex<Vec<Path<u16, u16>>>> = Arc::new(Mutex::new(vec![]));
+        let l2 = log.clone();
+        let b = builder(&m2.fresh(), &cfg2).visitor(move |p: Path<u16, u16>| l2.lock().unwrap().push(p));
+        with_checker!(b, strat, &script2, c => { c.join(); });
+        let (pr, pacc) = PathRecorder::<NG>::new_with_accessor();
+        let before = pacc().len();
+        let b = builder(&m2.fresh(), &cfg2).visitor(pr);
+        with_checker!(b, strat, &script2, c => { c.join(); });
+        let (sr, sacc) = StateRecorder::<NG>::new_with_accessor();
+        let sbefore = sacc().len();
+        let b = builder(&m2.fresh(), &cfg2).visitor(sr);
+        with_checker!(b, strat, &script2, c => { c.join(); });
+        let shown = log.lock().unwrap().clone();
+        (shown, pacc(), sacc(), before, sbefore)
+    });
+    match res {
+        Err(e) => out.v(if e == "hang" { "recorder-hang" } else { "recorder-panic" }, &format!("{} {}", e, desc)),
+        Ok((shown, paths, states, before, sbefore)) => {
+            if before != 0 || sbefore != 0 { out.v("recorder-not-empty-at-start", &desc); }
+            let shown_set: HashSet<Path<u16, u16>> = shown.iter().cloned().collect();
+            if shown_set != paths {
+                out.v("path-recorder-set-differs-from-paths-shown-to-a-closure", &format!("{} shown={} recorded={}", desc, shown_set.len(), paths.len()));
+            }
+            let lasts: Vec<u16> = shown.iter().map(|p| *p.last_state()).collect();
+            if lasts != states {
+                out.v("state-recorder-differs-from-last-states-shown-to-a-closure", &format!("{} shown={:?} recorded={:?}", desc, lasts, states));
+            }
+            out.stat(&format!("recorder-{}", strat));
+            out.stat_n("recorder-paths-compared", shown.len() as u64);
+            if shown_set.len() < shown.len() { out.stat("recorder-run-with-a-path-shown-twice"); }
+            if shown.is_empty() { out.stat("recorder-run-without-visits"); }
+        }
+    }
+}
+
+// ------------------------------------------------------------------------------------------------------------
+// 3. Model / Checker defaults
+// ------------------------------------------------------------------------------------------------------------
+
+#[derive(Clone, Debug, PartialEq, Eq, Hash)]
+struct MS {
+    id: u16,
+    tag: Vec<u8>,
+    flag: Option<bool>,
+}
+#[derive(Clone, Debug, PartialEq, Eq, Hash)]
+enum MA {
+    Go(u16),
+    Skip { k: u16 },
+    Unit,
+}
+/// a model that overrides NOTHING
+#[derive(Clone, Debug)]
+struct Min {
+    init: Vec<u16>,
+    states: Vec<MS>,
+    adj: Vec<Vec<(MA, Option<u16>)>>,
+}
+impl Model for Min {
+    type State = MS;
+    type Action = MA;
+    fn init_states(&self) -> Vec<MS> {
+        self.init.iter().map(|i| self.states[*i as usize].clone()).collect()
+    }
+    fn actions(&self, s: &MS, actions: &mut Vec<MA>) {
+        for (a, _) in &self.adj[s.id as usize] {
+            actions.push(a.clone());
+        }
+    }
+    fn next_state(&self, s: &MS, a: MA) -> Option<MS> {
+        self.adj[s.id as usize].iter().find(|(b, _)| *b == a).and_then(|(_, t)| t.map(|t| self.states[t as usize].clone()))
+    }
+}
+
+fn gen_min(r: &mut Rng, max_n: usize) -> Min {
+    let n = r.range(1, max_n);
+    let states: Vec<MS> = (0..n)
+        .map(|i| MS { id: i as u16, tag: (0..r.below(4)).map(|_| r.below(256) as u8).collect(), flag: match r.below(3) { 0 => None, 1 => Some(true), _ => Some(false) } })
+        .collect();
+    let adj = (0..n)
+        .map(|_| {
+            let mut row: Vec<(MA, Option<u16>)> = vec![];
+            for k in 0..r.below(5) {
+                let a = match r.below(3) { 0 => MA::Go(k as u16), 1 => MA::Skip { k: k as u16 }, _ => MA::Unit };
+                if row.iter().any(|(b, _)| *b == a) { continue; }
+                row.push((a, if r.chance(1, 3) { None } else { Some(r.below(n) as u16) }));
+            }
+            row
+        })
+        .collect();
+    let k = r.range(1, 3.min(n));
+    let init = (0..k).map(|_| r.below(n) as u16).collect();
+    Min { init, states, adj }
+}
+
+fn defaults_min(out: &mut Out, r: &mut Rng, th: bool) {
+    let cases = if th { 3000 } else { 300 };
+    for c in 0..cases {
+        let m = gen_min(r, 8);
+        let desc = format!("min-model {:?}", m);
+        let res = catch_unwind(AssertUnwindSafe(|| {
+            let mut bad: Vec<String> = vec![];
+            let mut stats: Vec<&'static str> = vec![];
+            if !m.properties().is_empty() { bad.push("properties-default-not-empty".into()); }
+            for s in &m.states {
+                if !m.within_boundary(s) { bad.push(format!("within_boundary-default-false at {}", s.id)); }
+                let row = &m.adj[s.id as usize];
+                let want_steps: Vec<(MA, MS)> = row.iter().filter_map(|(a, t)| t.map(|t| (a.clone(), m.states[t as usize].clone()))).collect();
+                let want_states: Vec<MS> = want_steps.iter().map(|x| x.1.clone()).collect();
+                if m.next_steps(s) != want_steps { bad.push(format!("next_steps at {}: {:?}", s.id, m.next_steps(s))); }
+                if m.next_states(s) != want_states { bad.push(format!("next_states at {}: {:?}", s.id, m.next_states(s))); }
+                if want_steps.len() < row.len() { stats.push("defaults-state-with-ignored-action"); }
+                for (a, t) in row {
+                    if m.format_action(a) != format!("{:?}", a) { bad.push(format!("format_action {:?}: {}", a, m.format_action(a))); }
+                    let want = t.map(|t| format!("{:#?}", m.states[t as usize]));
+                    let got = m.format_step(s, a.clone());
+                    if got != want { bad.push(format!("format_step at {} {:?}: {:?}", s.id, a, got)); }
+                    stats.push(if want.is_some() { "defaults-format_step-some" } else { "defaults-format_step-none" });
+                }
+                // an action the state does not offer
+                if m.format_step(s, MA::Go(99)).is_some() { bad.push("format_step-of-an-unknown-action-is-some".into()); }
+            }
+            // as_svg of a random walk
+            let s0 = m.states[m.init[0] as usize].clone();
+            let mut acts: Vec<MA> = vec![];
+            let mut cur = s0.clone();
+            for _ in 0..r.below(5) {
+                let steps = m.next_steps(&cur);
+                if steps.is_empty() { break; }
+                let (a, t) = steps[r.below(steps.len())].clone();
+                acts.push(a);
+                cur = t;
+            }
+            match Path::from_actions(&m, s0, acts.iter()) {
+                None => bad.push("from_actions-rejected-a-real-walk".into()),
+                Some(p) => {
+                    if *p.last_state() != cur { bad.push("from_actions-last-state".into()); }
+                    if m.as_svg(p).is_some() { bad.push("as_svg-default-not-none".into()); }
+                }
+            }
+            // `property(name)` of a model without properties panics for every name, with the documented message
+            for name in ["x", "p0"] {
+                match catch_unwind(AssertUnwindSafe(|| m.property(name))) {
+                    Ok(_) => bad.push(format!("property({})-returned-on-a-model-without-properties", name)),
+                    Err(e) => {
+                        let want = format!("Unknown property. requested={}, available=[]", name);
+                        if panic_text(&e) != want { bad.push(format!("property({}) message: {}", name, panic_text(&e))); }
+                    }
+                }
+            }
+            (bad, stats)
+        }));
+        match res {
+            Err(e) => out.v("defaults-panic", &format!("{} {}", panic_text(&e), desc)),
+            Ok((bad, stats)) => {
+                for b in bad { out.v("model-default", &format!("{} {}", b, desc)); }
+                for s in stats { out.stat(s); }
+            }
+        }
+        // a checker on a model without properties: nothing to discover, `assert_properties` holds
+        if c % 10 == 0 {
+            let m2 = m.clone();
+            let strat = ["bfs", "dfs", "ondemand"][(c / 10) % 3];
+            let res = guarded(20, move || {
+                let b = m2.checker().threads(1);
+                match strat {
+                    "bfs" => { let c = b.spawn_bfs().join(); c.assert_properties(); (c.discoveries().len(), c.is_done()) }
+                    "dfs" => { let c = b.spawn_dfs().join(); c.assert_properties(); (c.discoveries().len(), c.is_done()) }
+                    _ => { let c = b.spawn_on_demand(); c.run_to_completion(); let c = c.join(); c.assert_properties(); (c.discoveries().len(), c.is_done()) }
+                }
+            });
+            match res {
+                Ok((0, true)) => out.stat("defaults-checker-on-a-model-without-properties"),
+                other => out.v("defaults-checker-on-a-model-without-properties", &format!("{:?} {}", other, desc)),
+            }
+        }
+        out.stat("defaults-min-models");
+        out.distinct(&format!("{:?}", m));
+        if c == 0 { out.sample(&desc); }
+    }
+}
+
+/// `Model::property` on a model WITH properties; `check_fingerprint` / `run_to_completion` on bfs / dfs checkers
+fn defaults_ng(out: &mut Out, m: &NG, strat: &'static str, cfg: &Cfg, r: &mut Rng) {
+    let desc = format!("strat={} graph={} props={} names={} cfg={}", strat, m.g.graph_sx(), m.g.props_sx(), m.names_sx(), cfg.sx());
+    for (k, name) in m.names.iter().enumerate() {
+        match catch_unwind(AssertUnwindSafe(|| m.property(name))) {
+            Err(e) => out.v("property-of-a-known-name-panicked", &format!("{} {} {}", name, panic_text(&e), desc)),
+            Ok(p) => {
+                let exp = match p.expectation { Expectation::Always => 'a', Expectation::Sometimes => 's', Expectation::Eventually => 'e' };
+                let same_cond = (0..m.g.n as u16).all(|s| (p.condition)(m, &s) == m.g.props[k].tbl[s as usize]);
+                if p.name != *name || exp != m.g.props[k].exp || !same_cond { out.v("property-lookup-wrong", &format!("{} {}", name, desc)); }
+                out.stat("property-lookups-known");
+            }
+        }
+    }
+    let unknown: Vec<&'static str> = POOL.iter().copied().filter(|n| !m.names.contains(n)).collect();
+    let name = *r.pick(&unknown);
+    match catch_unwind(AssertUnwindSafe(|| m.property(name))) {
+        Ok(_) => out.v("property-of-an-unknown-name-returned", &format!("{} {}", name, desc)),
+        Err(e) => {
+            let want = format!("Unknown property. requested={}, available={:?}", name, m.names);
+            if panic_text(&e) != want { out.v("property-unknown-name-message", &format!("got={:?} want={:?} {}", panic_text(&e), want, desc)); }
+            out.stat("property-lookups-unknown");
+        }
+    }
+    if strat == "ondemand" { return; }
+    let (m2, cfg2) = (m.fresh(), cfg.clone());
+    let fps: Vec<u64> = (0..3).map(|_| stateright::verif::fingerprint(&(r.below(m.g.n + 2) as u16))).collect();
+    let res = guarded(20, move || {
+        let b = builder(&m2, &cfg2);
+        fn snap<C: Checker<NG>>(c: &C) -> (usize, usize, usize, bool, BTreeMap<&'static str, Vec<(u16, Option<u16>)>>) {
+            (c.state_count(), c.unique_state_count(), c.max_depth(), c.is_done(), c.discoveries().into_iter().map(|(k, p)| (k, p.into_vec())).collect())
+        }
+        with_checker!(b, strat, &[1, 2, 3], c => {
+            let c = c.join();
+            let before = snap(&c);
+            for fp in &fps { c.check_fingerprint(NonZeroU64::new(*fp).unwrap()); }
+            c.run_to_completion();
+            std::thread::sleep(Duration::from_millis(1));
+            let after = snap(&c);
+            before == after
+        })
+    });
+    match res {
+        Ok(true) => out.stat(&format!("checker-default-noop-{}", strat)),
+        Ok(false) => out.v("check_fingerprint-or-run_to_completion-changed-a-finished-checker", &desc),
+        Err(e) => out.v("checker-default-noop-failed", &format!("{} {}", e, desc)),
+    }
+}
+
+// ------------------------------------------------------------------------------------------------------------
+// 4. from_fingerprints failure branches
+// ------------------------------------------------------------------------------------------------------------
+
+fn flaky_case(out: &mut Out, m: &NG, strat: &'static str, cfg: &Cfg, script: &[usize], r: &mut Rng) {
+    let desc = format!("strat={} graph={} props={} names={} cfg={} script={}", strat, m.g.graph_sx(), m.g.props_sx(), m.names_sx(), cfg.sx(), nums(script));
+    let (m2, cfg2, script2) = (m.fresh(), cfg.clone(), script.to_vec());
+    let (pick_a, pick_b, mode) = (r.next() as usize, r.next() as usize, 1 + r.below(3) as u32);
+    type Disc = BTreeMap<&'static str, Vec<(u16, Option<u16>)>>;
+    let res = guarded(20, move || {
+        let b = builder(&m2, &cfg2);
+        with_checker!(b, strat, &script2, c => {
+            let c = c.join();
+            let get = |c: &dyn Fn() -> std::collections::HashMap<&'static str, Path<u16, u16>>| -> Result<Disc, String> {
+                catch_unwind(AssertUnwindSafe(|| c().into_iter().map(|(k, p)| (k, p.into_vec())).collect::<Disc>())).map_err(|e| panic_text(&e))
+            };
+            let honest = get(&|| c.discoveries()).expect("honest discoveries");
+            // the state whose behaviour changes: a non-last state of some discovery path if there is one
+            let inner: Vec<u16> = honest.values().flat_map(|p| p[..p.len() - 1].iter().map(|x| x.0)).collect();
+            let broken: u16 = if !inner.is_empty() && pick_a % 4 != 0 { inner[pick_b % inner.len()] } else { (pick_b % m2.g.n) as u16 };
+            m2.broken.store(broken as u32, Ordering::SeqCst);
+            m2.mode.store(mode, Ordering::SeqCst);
+            let flipped = get(&|| c.discoveries());
+            let single: Vec<(&'static str, Result<Option<Vec<(u16, Option<u16>)>>, String>)> = m2.names.iter().map(|n| {
+                (*n, catch_unwind(AssertUnwindSafe(|| c.discovery(n).map(|p| p.into_vec()))).map_err(|e| panic_text(&e)))
+            }).collect();
+            m2.mode.store(0, Ordering::SeqCst);
+            let back = get(&|| c.discoveries());
+            (honest, broken, flipped, single, back)
+        })
+    });
+    let (honest, broken, flipped, single, back) = match res {
+        Ok(x) => x,
+        Err(e) => { out.v(if e == "hang" { "flaky-hang" } else { "flaky-panic" }, &format!("{} {}", e, desc)); return; }
+    };
+    let desc = format!("mode={} broken-state={} {}", mode, broken, desc);
+    let fp = |s: u16| stateright::verif::fingerprint(&s);
+    // what must happen, per discovery: Ok(()) the path is rebuilt unchanged; Err(fragments) it panics with a message containing all fragments
+    let expect = |p: &Vec<(u16, Option<u16>)>| -> Result<(), Vec<String>> {
+        match mode {
+            1 => Err(vec![
+                "Unable to reconstruct a `Path` based on digests (\"fingerprints\") from states visited earlier. No\ninit state has the expected fingerprint".into(),
+                format!("init state has the expected fingerprint ({})", fp(p[0].0)),
+                format!("Available init fingerprints (none of which match): {:?}", m.g.init.iter().map(|s| fp(s + SHIFT)).collect::<Vec<_>>()),
+            ]),
+            _ => match p[..p.len() - 1].iter().position(|x| x.0 == broken) {
+                None => Ok(()),
+                Some(j) => {
+                    let avail: Vec<u64> = if mode == 3 { vec![] } else { m.g.adj[broken as usize].iter().flatten().map(|t| fp(t + SHIFT)).collect() };
+                    Err(vec![
+                        format!("from states visited earlier. {}\nprevious state(s) of the path were able to be reconstructed, but no subsequent state has the next\nfingerprint ({})", j + 1, fp(p[j + 1].0)),
+                        format!("Available next fingerprints (none of which match): {:?}", avail),
+                    ])
+                }
+            },
+        }
+    };
+    let expected: Vec<(&&'static str, Result<(), Vec<String>>)> = honest.iter().map(|(n, p)| (n, expect(p))).collect();
+    let must_panic = expected.iter().any(|(_, e)| e.is_err());
+    let matches_some = |msg: &str| expected.iter().any(|(_, e)| match e { Err(frags) => frags.iter().all(|f| msg.contains(f.as_str())), Ok(()) => false });
+    match &flipped {
+        Ok(d) => {
+            if must_panic { out.v("discoveries-returned-although-a-path-cannot-be-rebuilt", &format!("{} returned={:?} honest={:?}", desc, d, honest)); }
+            else if *d != honest { out.v("discoveries-changed-although-every-path-can-be-rebuilt", &format!("{} returned={:?} honest={:?}", desc, d, honest)); }
+        }
+        Err(msg) => {
+            if !must_panic { out.v("discoveries-panicked-although-every-path-can-be-rebuilt", &format!("{} {}", desc, msg)); }
+            else if !matches_some(msg) { out.v("discoveries-panic-message", &format!("{} message={:?}", desc, msg)); }
+        }
+    }
+    // `discovery(name)` rebuilds every path: it panics exactly when `discoveries()` does
+    for (n, res) in &single {
+        match res {
+            Ok(p) => {
+                if must_panic { out.v("discovery-returned-although-a-path-cannot-be-rebuilt", &format!("{} name={}", desc, n)); }
+                else if p.as_ref() != honest.get(n) { out.v("discovery-changed", &format!("{} name={}", desc, n)); }
+            }
+            Err(msg) => {
+                if !must_panic { out.v("discovery-panicked-although-every-path-can-be-rebuilt", &format!("{} name={} {}", desc, n, msg)); }
+                else if !matches_some(msg) { out.v("discovery-panic-message", &format!("{} name={} message={:?}", desc, n, msg)); }
+            }
+        }
+    }
+    if back.as_ref().ok() != Some(&honest) { out.v("discoveries-differ-after-the-model-is-honest-again", &desc); }
+    out.stat("flaky-cases");
+    out.stat(&format!("flaky-mode-{}-{}", mode, if must_panic { "must-panic" } else { "must-return" }));
+    if must_panic && mode != 1 { out.stat("flaky-no-subsequent-state"); }
+    if must_panic && mode == 1 { out.stat("flaky-no-init-state"); }
+    if honest.is_empty() { out.stat("flaky-no-discovery"); }
+    out.distinct(&(m.g.graph_sx(), m.g.props_sx(), strat, mode, broken));
+}
+
+// ------------------------------------------------------------------------------------------------------------
+// 5. simulation with initial states outside the boundary (model command `sim` of Drv/Chk.lean)
+// ------------------------------------------------------------------------------------------------------------
+
+fn sim_outside(out: &mut Out, r: &mut Rng, th: bool) {
+    let cases = if th { 12000 } else { 1200 };
+    for c in 0..cases {
+        let np = r.range(1, 5);
+        let mut g = gen_graph(r, 10, Shape::Any, np);
+        // 2..4 initial states (repeats allowed), the first inside the boundary, at least one outside
+        let k = r.range(2, 4);
+        g.init = (0..k).map(|_| r.below(g.n) as u16).collect();
+        let inside = g.init[0];
+        g.bnd[inside as usize] = true;
+        let others: Vec<u16> = g.init.iter().copied().filter(|s| *s != inside).collect();
+        if others.is_empty() { out.stat("sim-outside-skipped-single-initial-state"); continue; }
+        let o = *r.pick(&others);
+        g.bnd[o as usize] = false;
+        let mut names: Vec<&'static str> = POOL.to_vec();
+        r.shuffle(&mut names);
+        names.truncate(np);
+        let m = NG::new(g, names);
+        let script: Vec<usize> = (0..r.below(40)).map(|_| r.below(12)).collect();
+        let cfg = Cfg {
+            max_depth: if r.chance(1, 3) { Some(r.range(1, 6)) } else { None },
+            target: Some(r.range(1, 12)),
+            finish: match r.below(5) { 0 => "any".into(), 1 => "anyf".into(), 2 => "allf".into(), _ => "all".into() },
+        };
+        let desc = format!("graph={} props={} cfg={} script={}", m.g.graph_sx(), m.g.props_sx(), cfg.sx(), nums(&script));
+        let (m2, cfg2, script2) = (m.fresh(), cfg.clone(), script.clone());
+        let res = guarded(20, move || {
+            let visits: Arc<Mutex<Vec<Vec<u16>>>> = Arc::new(Mutex::new(vec![]));
+            let v2 = visits.clone();
+            let b = builder(&m2, &cfg2).visitor(move |p: Path<u16, u16>| v2.lock().unwrap().push(p.into_states()));
+            let chooser = ScriptChooser::new(&script2);
+            let pos = chooser.pos.clone();
+            let c = b.spawn_simulation(0, chooser).join();
+            let disc: BTreeMap<usize, Vec<u16>> = c.discoveries().into_iter().map(|(n, p)| (m2.idx(n), p.into_states())).collect();
+            let vs = visits.lock().unwrap().clone();
+            (vs, c.unique_state_count(), c.state_count(), c.max_depth(), disc, pos.load(Ordering::SeqCst))
+        });
+        match res {
+            Err(e) => out.v(if e == "hang" { "sim-outside-hang" } else { "sim-outside-panic" }, &format!("{} {}", e, desc)),
+            Ok((vs, uniq, count, depth, disc, asked)) => {
+                let obs = format!(
+                    "(visits ({})) (uniq {}) (count {}) (depth {}) (disc ({}))",
+                    vs.iter().map(|p| nums(p)).collect::<Vec<_>>().join(" "),
+                    uniq, count, depth,
+                    disc.iter().map(|(i, p)| format!("({} {})", i, nums(p))).collect::<Vec<_>>().join(" ")
+                );
+                out.m(&format!("sim {} {} {} {}", m.g.graph_sx(), m.g.props_sx(), cfg.sx(), nums(&script)), &obs);
+                // direct laws: nothing outside the boundary is ever shown or reported
+                if vs.iter().chain(disc.values()).any(|p| p.iter().any(|s| !m.g.bnd[*s as usize])) { out.v("sim-outside-state-outside-the-boundary-evaluated-or-reported", &desc); }
+                // how many traces started outside: replay of the scripted answers is the model's business; here a lower bound
+                let first = script.first().map(|a| a % m.g.init.len()).unwrap_or(0);
+                if !m.g.bnd[m.g.init[first] as usize] { out.stat("sim-outside-first-trace-starts-outside"); }
+                out.stat("sim-outside-cases");
+                out.stat_n("sim-outside-chooser-questions", asked as u64);
+                if disc.is_empty() { out.stat("sim-outside-no-discovery"); } else { out.stat("sim-outside-with-discovery"); }
+                out.distinct(&(m.g.graph_sx(), m.g.props_sx(), cfg.sx(), script.clone()));
+                if c < 2 { out.sample(&format!("sim-outside {}", desc)); }
+            }
+        }
+    }
+}
+
 fn main() {
     quiet_panics();
     let mut out = Out::new();
+    let mut r = Rng::new(seed());
+    let th = thorough();
+
+    // the default `delay()` of a `Reporter` is one second
+    {
+        let mut buf: Vec<u8> = vec![];
+        let wr = WriteReporter::new(&mut buf);
+        let d = Reporter::<NG>::delay(&wr);
+        if d != Duration::from_millis(1000) { out.v("reporter-default-delay", &format!("{:?}", d)); }
+        out.stat("reporter-default-delay-checked");
+    }
+
+    let strategies: [&'static str; 4] = ["bfs", "dfs", "ondemand", "sim"];
+    let n_graphs = if th { 5000 } else { 500 };
+    for c in 0..n_graphs {
+        let shape = match r.below(10) { 0..=5 => Shape::Any, 6..=7 => Shape::Forest, _ => Shape::Dag };
+        let np = r.range(1, 6);
+        let g = gen_graph(&mut r, 10, shape, np);
+        let mut names: Vec<&'static str> = POOL.to_vec();
+        r.shuffle(&mut names);
+        names.truncate(np);
+        let m = NG::new(g, names);
+        for f in m.g.features() { out.stat(&format!("graph-{}", f)); }
+        out.stat(&format!("props-{}", np));
+        let cfg = if r.chance(1, 2) { Cfg::plain() } else {
+            Cfg {
+                max_depth: if r.chance(1, 3) { Some(r.range(1, 5)) } else { None },
+                target: if r.chance(1, 3) { Some(r.range(1, 10)) } else { None },
+                finish: match r.below(7) {
+                    0 => "all".into(), 1 => "any".into(), 2 => "anyf".into(), 3 => "allf".into(),
+                    4 => format!("(allof {} {})", r.below(np), r.below(np + 1)),
+                    5 => format!("(anyof {} {})", r.below(np), r.below(np + 1)),
+                    _ => "all".into(),
+                },
+            }
+        };
+        // simulation: every initial state inside the boundary and a target state count, so that the run ends
+        let mut ms = m.fresh();
+        for s in ms.g.init.clone() { ms.g.bnd[s as usize] = true; }
+        let script: Vec<usize> = (0..r.below(40)).map(|_| r.below(12)).collect();
+        let scfg = Cfg { max_depth: cfg.max_depth, target: Some(r.range(1, 12)), finish: if cfg.finish.starts_with('(') { "all".into() } else { cfg.finish.clone() } };
+        // the exhaustive strategies: one or two per graph for the report, all for the cheap checks
+        let pick = c % 3;
+        for (k, strat) in strategies.iter().enumerate() {
+            let (mm, cc) = if *strat == "sim" { (&ms, &scfg) } else { (&m, &cfg) };
+            if mm.g.init.is_empty() { continue; }
+            if *strat == "sim" || k == pick || r.chance(1, 3) {
+                report_case(&mut out, mm, strat, cc, &script);
+            }
+            if k == (pick + 1) % 3 || (*strat == "sim" && c % 2 == 0) {
+                recorder_case(&mut out, mm, strat, cc, &script);
+            }
+            if k == (pick + 2) % 3 || (*strat == "sim" && c % 2 == 1) {
+                flaky_case(&mut out, mm, strat, cc, &script, &mut r);
+            }
+            if *strat != "sim" && c % 4 == 0 {
+                defaults_ng(&mut out, mm, strat, cc, &mut r);
+            }
+        }
+        if c < 3 { out.sample(&format!("graph {} props {} names {} cfg {}", m.g.graph_sx(), m.g.props_sx(), m.names_sx(), cfg.sx())); }
+    }
+    defaults_min(&mut out, &mut r, th);
+    sim_outside(&mut out, &mut r, th);
+    live_reports(&mut out, &mut r, th);
     out.finish();
 }
